@@ -21,6 +21,24 @@ CHECKS = {
     "C10": (MC, "4.C10", "lasso detection on the exact float orbit of the permeate-composition iteration (explicit-state liveness): a revisited float state plus continued iteration beyond B=1e6 evaluations is a violation; aperiodic budget exhaustion is undecided; also every step of process models near equilibrium",
             "No flux calculation in the lattice (dense near feed/permeate equilibrium, where attracting cycles exist) is still iterating on a periodic orbit after 1e6 evaluations; periodic orbits found are reported and all end in an error.",
             "B=1e6 is the harness's reading of 'bounded'; memoised evaluation after proved periodicity; undecided orbits are not violations"),
+    "C04": (EX, "4.C04", "bounded exhaustive enumeration of mixtures (8 built-in, 4 synthetic, lattice of synthetic NRTL/UNIQUAC parameters) x model x T x x; Gibbs-Duhem by Richardson finite differences with self-estimated truncation error; pure limits; Raoult limit; x*gamma*Psat; known-finding signature test for K1",
+            "NRTL is thermodynamically consistent on the whole lattice; UNIQUAC gamma_1 is; UNIQUAC gamma_2 deviates exactly as the documented typo K1 predicts (KNOWN-FINDING) and any other deviation is a violation.",
+            "FD identities at relative 1e-6 + estimated truncation error; vapour pressure taken as given"),
+    "C12": (EX, "4.C12", "bounded exhaustive enumeration incl. ALL orderings of the experiment list (n<=4; rotations+reversals n=5,6) against a closed-form reference (nearest experiment, Arrhenius line, least-squares slope)",
+            "Every query in the lattice returns the measured value at an experiment temperature and the Arrhenius-extrapolated nearest value elsewhere, independent of list order; regression recovers Ea; selectivity and pure-component flux identities hold.",
+            "Permeance.convert taken as given (C14); experiments lie on one Arrhenius line"),
+    "C13": (EX, "4.C13", "bounded exhaustive enumeration over components / constant triples x temperatures; Clausius-Clapeyron and dQ/dT=Cp by Richardson finite differences; additivity/antisymmetry exact",
+            "Heat of vaporisation equals R T^2 dlnPsat/dT (1e-6) for all built-in components and a lattice of Antoine/Frost constants; cooling heat is additive, antisymmetric, zero on empty intervals, derivative = Cp.",
+            "FD class tolerance 1e-6"),
+    "C14": (EX, "4.C14", "bounded exhaustive enumeration of all 27 unit paths x components x values against exact rational conversion factors; all error classes",
+            "All conversions in the lattice equal the exact rational reference (1e-12), are path-independent and invertible, bit-exactly linear on 2^j multiples; missing component / unknown unit raise; values never negative.",
+            "finite value lattice"),
+    "C15": (EX, "4.C15", "bounded exhaustive enumeration of a fraction lattice (dense within 1e-15 of both ends) x molar-mass pairs x direction against exact rational arithmetic; monotonicity over all lattice neighbours",
+            "Conversion equals the exact rational image, round-trips, fixes end points, keeps first+second=1, obeys the ratio law and is monotone on every neighbouring lattice pair; out-of-range values rejected.",
+            "finite lattice"),
+    "C19": (EX, "4.C19", "bounded exhaustive enumeration of entry points x specification cells (permeate T given?, p given?) x valid argument lattice; missing-parameter classes at every model-taking entry point; existential positive control per (entry point, valid cell)",
+            "Every entry point named by the statement raises for the double specification and for missing model parameters/constants, while each accepts at least one case of every valid cell; curve without data, mixture without parameters, <2 experiments without Ea are rejected at every site.",
+            "any Exception subclass counts as rejection; DiffusionCurve-from-permeances is a negative control only"),
 }
 def main():
     checks = []
